@@ -290,12 +290,17 @@ def expected_layout(ex, defn, payload_rope, pbf, mode_key=None):
     for e in ents:
         if isinstance(e, Leaf):
             if e.typ == "CH":
+                # variable-length text: the rest of the payload, decoded with the library's text codec
                 exp.order.append(e.name)
-                exp.top[e.name] = None
+                from pvc.values import SStr, TextOf
+                rest = payload_rope if (isinstance(off, int) and off == 0) else ex.bm.subscript(payload_rope, slice(mk_int(zint(off)), None, None))
+                exp.top[e.name] = SStr((TextOf(rest, "utf-8", "backslashreplace"),))
+                exp.leaves[e.name] = {"raw": rest, "typ": "CH", "scale": None, "bytes": rest}
                 off = nP
                 continue
             val = decode(e.typ, e.scale, off)
-            exp.leaves[e.name] = {"raw": decode(e.typ, e.scale, off, raw_only=True), "typ": e.typ, "scale": e.scale}
+            exp.leaves[e.name] = {"raw": decode(e.typ, e.scale, off, raw_only=True), "typ": e.typ, "scale": e.scale,
+                                  "bytes": view(off, int(e.typ[1:4]))}
             if e.name.startswith("_HP") and e.name[3:] in exp.top:
                 b0 = exp.top[e.name[3:]]
                 from pvc.values import SFloat as SF
